@@ -385,6 +385,84 @@ def from_axes_key(M, pair, batch):
     return {"site": "from_axes", "class": cls, "mixed_batch": bool(batch)}
 
 
+def oracle_surface(ck, rng):
+    """randomised constructors / operations and degenerate inputs: from_random, translate_random, rotate_random (positions, axes,
+    features, copy semantics, reproducibility per seed), empty molecule sets, argument validation"""
+    import polars as pl
+    from acryo import Molecules
+    from scipy.spatial.transform import Rotation
+    fails = []
+
+    def expect(cond, site, what, inp=None):
+        if not cond:
+            fails.append((site, what, inp))
+
+    def raises(fn, *exc):
+        try:
+            fn()
+        except exc:
+            return True
+        except Exception:
+            return False
+        return False
+
+    def proper(m):
+        z, y, x = m.z, m.y, m.x
+        return bool(np.allclose(np.sum(z * z, axis=1), 1, atol=1e-6) and np.allclose(np.sum(y * y, axis=1), 1, atol=1e-6) and np.allclose(np.sum(z * y, axis=1), 0, atol=1e-6)
+                    and np.allclose(-np.cross(x, y), z, atol=1e-6))      # right-handed in z, y, x order
+
+    try:
+        for it in range(3 if ck.tier == "quick" else 20):
+            n = int(rng.integers(1, 8))
+            pos = rng.normal(size=(n, 3)) * 10
+            feat = pl.DataFrame({"k": list(range(n))})
+            seed = int(rng.integers(0, 1000))
+            info = {"n": n, "seed": seed}
+            m = Molecules.from_random(pos, seed=seed, features=feat)
+            m2 = Molecules.from_random(pos, seed=seed)
+            expect(np.allclose(m.pos, pos, atol=1e-5) and proper(m) and m.features["k"].to_list() == list(range(n)), "from-random", "from_random: positions / features changed or axes not orthonormal right-handed", info)
+            expect(np.allclose(m.quaternion(), m2.quaternion()), "from-random", "from_random is not reproducible for a given seed", info)
+            d = float(rng.uniform(0.5, 5))
+            before = (m.pos.copy(), m.quaternion().copy())
+            t = m.translate_random(d, seed=seed)
+            t2 = m.translate_random(d, seed=seed)
+            dist = np.linalg.norm(t.pos - m.pos, axis=1)
+            expect(bool(np.all(dist <= d * (1 + 1e-5))) and np.allclose(t.quaternion(), m.quaternion()) and t.features["k"].to_list() == list(range(n)), "translate-random",
+                   f"translate_random({d:.2f}): a molecule moved by {dist.max():.3f} or orientations / features changed", info)
+            expect(np.allclose(t.pos, t2.pos) and (n == 1 or float(np.ptp(dist)) > 0 or d == 0), "translate-random", "translate_random is not reproducible per seed (or moves every molecule alike)", info)
+            expect(np.array_equal(m.pos, before[0]) and np.array_equal(m.quaternion(), before[1]), "copy", "translate_random(copy=True) altered the original", info)
+            r = m.rotate_random(seed=seed)
+            G = Rotation.random(n, random_state=seed)
+            expect(np.allclose(r.pos, m.pos) and np.allclose(r.z, G.apply(m.z), atol=1e-6) and np.allclose(r.y, G.apply(m.y), atol=1e-6) and proper(r)
+                   and r.features["k"].to_list() == list(range(n)), "rotate-random", "rotate_random does not compose a world rotation on the left / moves positions / drops features", info)
+            expect(np.array_equal(m.pos, before[0]) and np.array_equal(m.quaternion(), before[1]), "copy", "rotate_random(copy=True) altered the original", info)
+            c = m.copy()
+            same = c.translate_random(d, seed=seed, copy=False)
+            expect(same is c and np.allclose(c.pos, t.pos), "copy", "translate_random(copy=False) does not update and return the instance", info)
+            c = m.copy()
+            same = c.rotate_random(copy=False, seed=seed)
+            expect(same is c and np.allclose(c.z, r.z) and np.allclose(c.pos, m.pos), "copy", "rotate_random(copy=False) does not update and return the instance", info)
+        e = Molecules.empty()
+        e2 = Molecules.from_random(np.zeros((0, 3)), seed=1)
+        for em in (e, e2):
+            expect(len(em) == 0 and em.affine_matrix(np.zeros(3)).shape == (0, 4, 4) and em.matrix().shape == (0, 3, 3) and em.euler_angle().shape == (0, 3)
+                   and em.quaternion().shape == (0, 4) and em.rotvec().shape == (0, 3), "empty", "accessors of an empty molecule set have the wrong shapes", {})
+        expect(raises(lambda: Molecules(np.zeros((2, 3)), rot=np.eye(3)), TypeError), "validation", "a matrix accepted as `rot`", {})
+        expect(raises(lambda: Molecules.from_axes(np.zeros((1, 3)), z=[[1, 0, 0]]), TypeError) and raises(lambda: Molecules.from_axes(np.zeros((1, 3))), TypeError), "validation",
+               "from_axes accepted fewer than two axes", {})
+        expect(raises(lambda: Molecules.from_euler(np.zeros((1, 3)), np.zeros((1, 3)), order="yxz"), ValueError), "validation", "from_euler accepted an unknown order", {})
+    except Exception as e_:  # noqa
+        import traceback
+        fails.append(("raised", f"{type(e_).__name__}: {e_} at {traceback.format_exc().strip().splitlines()[-3].strip()}", {}))
+    ck.oracle_count("molecules_surface", 1, 1)
+    seen = set()
+    for site, what, inp in fails:
+        if site in seen:
+            continue
+        seen.add(site)
+        ck.violation(what=what, inp=inp, key={"site": "surface-" + site}, oracle="molecules_surface")
+
+
 def run(ck: common.Check):
     ck.design_ref = "DESIGN.md §6 C11"
     ck.trusted_base = TB
@@ -400,6 +478,7 @@ def run(ck: common.Check):
     oracle_repr(ck, rng)
     oracle_from_axes_batches(ck, np.random.default_rng(ck.seed + 111111))
     oracle_euler_batches(ck, np.random.default_rng(ck.seed + 112112))
+    oracle_surface(ck, np.random.default_rng(ck.seed + 11011))
 
 
 def replay(data):
